@@ -396,21 +396,29 @@ func genRound3(c *drv.Ctx, emit func(Case)) {
 	}
 
 	// (xi) concurrent batches: Conc goroutines at a time make calls of ONE operation, every call with values of its own,
-	// through one Runtime to one server, at GOMAXPROCS 1 / 4 / 16; over the wire and served in the calling goroutine
+	// through one Runtime to one server, at GOMAXPROCS 1 / 4 / 16; over the wire and served in the calling goroutine;
+	// requests optionally rendezvous in groups right after they are bound
 	nb := 0
 	for _, opid := range []string{"getNested", "listNotes", "addNote", "postForm", "putNote", "upDoc", "getFile"} {
 		for _, conc := range []int{8, 64} {
 			for _, procs := range []int{1, 4, 16} {
 				for _, via := range []string{"http", "inproc"} {
 					nb++
-					count := 4 * conc
-					if via == "inproc" && procs > 1 && opid != "upDoc" {
-						count = batchSize(thorough)
+					gate := []int{0, 2, 4, 8}[nb%4]
+					if procs == 1 {
+						gate = 0
 					}
-					emit(Case{API: api, Shared: nb%2 == 0, Conc: conc, Procs: procs, Yield: nb%3 == 0, Via: via, Reuse: nb%4 == 0, Batch: Batch{Op: opid, Count: count, Seed: nb}})
+					emit(Case{API: api, Shared: nb%2 == 0, Conc: conc, Procs: procs, Yield: nb%3 == 0, Via: via, Gate: gate, Reuse: nb%5 == 0, Batch: Batch{Op: opid, Count: 4 * conc, Seed: nb}})
 				}
 			}
 		}
+	}
+	// ... and long batches under pressure: groups of 8 requests bound at the same instant, 16 cores
+	for _, opid := range []string{"getNested", "listNotes", "addNote", "postForm"} {
+		nb++
+		emit(Case{API: api, Conc: 16, Procs: 16, Via: "inproc", Gate: 8, Batch: Batch{Op: opid, Count: batchSize(thorough), Seed: nb}})
+		nb++
+		emit(Case{API: api, Conc: 64, Procs: 16, Via: "http", Gate: 8, Batch: Batch{Op: opid, Count: batchSize(thorough), Seed: nb}})
 	}
 }
 
